@@ -2,19 +2,26 @@
 linearizability under concurrency is added on top (CacheLin)."""
 import json
 
-from drivers import c17_cache
+from drivers import c17_cache, c17_conc
 
 LEVEL = "model_checking"
 META = {
-    "text": "Cache.tla specifies both resolver caches as a sequential object over integer time (fresh iff now < "
+    "text": "(sequential) Cache.tla specifies both resolver caches as a sequential object over integer time (fresh iff now < "
             "expiration; LRU bound enforced after every put and resize; eviction strictly from the least recently used "
             "end; one hit or miss per lookup). TLC checks the invariants/action properties exhaustively on 3 keys, "
             "enumerates all call/clock scripts to a depth bound plus seeded long simulations; each script runs on the "
             "real dns.resolver.Cache and LRUCache under a virtual clock and Trace_Cache requires every call's result, "
-            "counters and structural content (LRU ring walked forwards and backwards against the dict) to equal the model's.",
+            "counters and structural content (LRU ring walked forwards and backwards against the dict) to equal the model's. "
+            "(concurrent) CacheLin.tla adds invocation/linearization/return steps per thread; TLC enumerates small multi-threaded "
+            "programs, vlib/sched.py runs each on the real caches under every schedule with a bounded number of preemptions "
+            "(yield points at every lock operation and, line-level, at every source line of the cache methods) plus seeded random "
+            "schedules, and Trace_CacheLin accepts a recorded history only if TLC finds linearization points explaining every "
+            "return value and the final ring/dict/counters.",
     "note": "Exhaustive inside the Gen/MC constants (3 keys, 2 values, TTL {1,3}, sizes 1..3, depth 3-4 scripts; depth 6-8 state "
             "space); longer histories are seeded TLC simulations. Trusted: TLC, Json module, the projection in "
-            "drivers/c17_cache.py; time is virtual (dns.resolver.time rebound in the driver process).",
+            "drivers/c17_cache.py; time is virtual (dns.resolver.time rebound in the driver process). Concurrency: real threads "
+            "serialized by a deterministic scheduler (cache.lock replaced by a shim lock); atomicity of one source line is assumed; "
+            "programs are 2-3 threads x <=2 calls, preemption bound 1 (quick) / 2 (thorough).",
     "technique": "TLA+ sequential cache model + TLC exhaustive check; TLC-generated scripts replayed on the code; TLC trace validation",
     "design_ref": "DESIGN.md section 4, C17",
 }
@@ -34,6 +41,76 @@ CHECK_DEADLOCK FALSE
 """
 
 
+LIN_CFG = """INIT GInit
+NEXT GNext
+CONSTANTS
+  Keys = {{"k1", "k2", "k3"}}
+  Vals = {{1, 2}}
+  TTLs = {{1}}
+  Sizes = {{2}}
+  Steps = {{1}}
+  Kinds = {{"lru", "plain"}}
+  Threads = {threads}
+  ProgCalls <- {calls}
+  MaxProg = {maxprog}
+  MaxRest = {maxrest}
+  Setups <- AllSetups
+INVARIANT Emit
+CHECK_DEADLOCK FALSE
+"""
+
+
+def concurrent_part(ctx, quick):
+    """Linearizability: TLC enumerates the multi-threaded programs, the deterministic scheduler
+    explores their interleavings on the real caches, TLC searches for a linearization."""
+    ctx.model("MC_CacheLin", "MC_CacheLin_quick.cfg")
+    if ctx.replay_case:
+        jobs = [tuple(ctx.replay_case["case"]["job"])]
+    else:
+        progs = ctx.generate("Gen_CacheLin", ctx.cfg("lin1.cfg", LIN_CFG.format(
+            threads='{"t1", "t2"}', calls="CallsSmall", maxprog=2, maxrest=1 if quick else 2)))
+        jobs = [(p, "c%d" % i, 1, False, 2, ctx.seed) for i, p in enumerate(progs)]
+        # line-level preemption (every source line of the cache methods is a yield point)
+        step = 7 if quick else 1
+        jobs += [(p, "l%d" % i, 1, True, 2, ctx.seed) for i, p in enumerate(progs) if i % step == 0]
+        if not quick:
+            wide = ctx.generate("Gen_CacheLin", ctx.cfg("lin2.cfg", LIN_CFG.format(
+                threads='{"t1", "t2"}', calls="CallsWide", maxprog=2, maxrest=1)))
+            jobs += [(p, "w%d" % i, 2, False, 3, ctx.seed) for i, p in enumerate(wide)]
+            three = ctx.generate("Gen_CacheLin", ctx.cfg("lin3.cfg", LIN_CFG.format(
+                threads='{"t1", "t2", "t3"}', calls="CallsSmall", maxprog=1, maxrest=1)))
+            jobs += [(p, "3t%d" % i, 2, True, 3, ctx.seed) for i, p in enumerate(three)]
+    results = ctx.pmap(c17_conc.run_job, jobs)
+    traces, runs = [], 0
+    jobmap = {j[1]: j for j in jobs}
+    for (trs, n) in results:
+        runs += n
+        traces += trs
+    ctx.extra["concurrent_programs"] = len(jobs)
+    ctx.extra["concurrent_executions"] = runs
+    ctx.extra["concurrent_distinct_histories"] = len(traces)
+    ctx.log("concurrent: %d programs, %d executions, %d distinct histories" % (len(jobs), runs, len(traces)))
+    if traces:
+        ctx.sample({"concurrent_history": traces[len(traces) // 2]["ev"][-6:], "sched": traces[len(traces) // 2]["sched"]})
+    for tr in traces:
+        ctx.note_distinct("H" + json.dumps(tr["ev"], sort_keys=True))
+    ctx.evaluations += runs
+    slim = [{k: v for k, v in tr.items() if k != "sched"} for tr in traces]
+    rejects = ctx.validate("Trace_CacheLin", "Trace_CacheLin.cfg", slim, dfs=True)
+    by_tid = {tr["tid"]: tr for tr in traces}
+    for tr, line, clause in rejects:
+        full = by_tid[tr["tid"]]
+        ops = [e for e in tr["ev"] if e["op"] not in ("call", "ret", "tick", "final")]
+        what = ops[0]["op"] if ops else "NotLinearizable"
+        progid = tr["tid"].rsplit(".", 1)[0]
+        calls = sorted({c["op"] for th in jobmap[progid][0]["prog"].values() for c in th}) if progid in jobmap else []
+        sig = "%s:%s:%s:%s" % (what if ops else (clause if clause != "unmatched" else "NotLinearizable"), tr["kind"],
+                               "line" if full["sched"].get("line") else "lock", "+".join(calls))
+        ctx.violation(clause, sig, "%s cache: no sequential order explains the history %s (schedule %s)" % (
+            tr["kind"], json.dumps(tr["ev"][-7:])[:400], json.dumps(full["sched"])),
+            {"job": list(jobmap.get(progid, ())), "trace": full})
+
+
 def classify(tr, line, clause):
     e = tr["ev"][line - 1] if line and 0 < line <= len(tr["ev"]) else {}
     return "%s:%s:%s:%s" % (clause, e.get("op", "?"), tr.get("kind"), e.get("exc", ""))
@@ -46,6 +123,8 @@ def run(ctx):
                 "non-trivial = contains a put and a later get")
     ctx.assumptions += ["TLC and CommunityModules Json are correct", "virtual clock replaces time.time() inside dns.resolver",
                         "integer ticks stand for real-valued time"]
+    if ctx.replay_case and "job" in ctx.replay_case["case"]:
+        return concurrent_part(ctx, quick)
     if ctx.replay_case:
         jobs = [(ctx.replay_case["case"]["script"], "replay")]
     else:
@@ -73,3 +152,5 @@ def run(ctx):
         ctx.violation(clause, classify(tr, line, clause),
                       "%s cache, event %s: %s" % (tr.get("kind"), line, json.dumps(e)[:300]),
                       {"script": jobmap.get(tr["tid"]), "line": line, "trace": tr})
+    if not ctx.replay_case:
+        concurrent_part(ctx, quick)
